@@ -16,6 +16,7 @@ import (
 	"github.com/acquirecloud/golibs/zverif/vsched"
 	"github.com/anishathalye/porcupine"
 	"verifh/internal/bfs"
+	"verifh/internal/deepdump"
 	"verifh/internal/ev"
 	"verifh/internal/sdrv"
 )
@@ -409,6 +410,8 @@ func (s *sys) key() string {
 		fmt.Fprintf(&sb, "%x|", data[off:off+int64(s.bs)])
 	}
 	fmt.Fprintf(&sb, "f%d", freeIdx)
+	// every field the allocator object has (counters, hints, whatever a change may add)
+	sb.WriteString("|" + deepdump.Dump(s.b, deepdump.Options{}))
 	return sb.String()
 }
 
